@@ -2,21 +2,42 @@
 # Interleaving semantics of N threads over locks and shared memory (core only)
 
 A thread is a list of atomic actions; a schedule is a list of thread ids; `step` lets the chosen
-thread perform its next action if it is enabled (a `lock` of a held lock and an `unlock` by a
-non-owner are not enabled: the step is a no-op, the thread stays blocked). Shared memory is a map
-from locations to values; what a thread observes is the list of values it has read (`logs`); what
-it writes is an arbitrary function `wv` of its identity, the location and everything it has read
-so far, so a thread's behaviour is any deterministic function of its observations.
+thread perform its next action if it can fire (`canFire`); otherwise the step leaves the thread
+where it is (blocked). Locks are reader/writer locks in the sense of Go's `sync.RWMutex`
+(`lock`/`unlock` = `Lock`/`Unlock`, `rlock`/`runlock` = `RLock`/`RUnlock`); a lock on which only
+`lock`/`unlock` is used is a `sync.Mutex`.
 
-A *data race* is a state in which two different threads are both about to access the same
-location, one of them writing (conflicting accesses enabled in the same state). Since at most one
-thread owns a lock in any state, "with no common held lock" is automatic for co-enabled accesses.
+* `lock l` fires when nobody owns `l`, nobody holds a read lock on it and no *other* writer has
+  announced itself;
+* like Go's `RWMutex`, a writer that finds active readers announces itself (`pending l`) and from
+  then on **new readers are blocked** until that writer has had its turn (writer preference). This
+  is what makes a recursive read lock a deadlock in Go, and it is in the model so that the deadlock
+  freedom theorem speaks about the blocking behaviour of the real lock;
+* `rlock l` fires when nobody owns `l` and no writer is pending; `runlock l` when the thread holds
+  a read lock (read locks are counted: `readers l` is a multiset of thread ids);
+* `unlock l` fires for the owner only.
+
+Shared memory is a map from locations to values; what a thread observes is the list of values it
+has read (`logs`); what it writes is an arbitrary function `wv` of its identity, the location and
+everything it has read so far, so a thread's behaviour is any deterministic function of its
+observations.
+
+Two notions of data race:
+
+* `Race s` — two different threads are both about to access the same location in state `s`, one
+  of them writing (co-enabled conflicting accesses);
+* `RaceHB tr` — in the trace `tr` of the events that fired, two conflicting accesses of different
+  threads are not ordered by *happens-before*: the transitive closure of program order and the
+  synchronisation edges of the Go memory model for `sync.Mutex`/`sync.RWMutex` (`Unlock` → a later
+  `Lock` or `RLock` of the same lock, `RUnlock` → a later `Lock`; **not** `RUnlock` → `RLock`).
 -/
 namespace J5V.Conc.Sched
 
 inductive Action where
   | lock (l : Nat)
   | unlock (l : Nat)
+  | rlock (l : Nat)
+  | runlock (l : Nat)
   | read (x : Nat)
   | write (x : Nat)
   | tau
@@ -30,7 +51,12 @@ abbrev WriteFn := Nat → Nat → List Nat → Nat
 
 structure State where
   rem : List Thread
+  /-- the thread that holds the write lock -/
   owner : Nat → Option Nat
+  /-- the threads that hold a read lock (one entry per acquisition) -/
+  readers : Nat → List Nat
+  /-- the writer that has announced itself and waits for the readers to leave -/
+  pending : Nat → Option Nat
   mem : Nat → Nat
   logs : List (List Nat)
 
@@ -40,19 +66,39 @@ def upd {β : Type} (f : Nat → β) (k : Nat) (v : β) : Nat → β := fun x =>
 @[simp] theorem upd_other {β : Type} (f : Nat → β) (k x : Nat) (v : β) (h : x ≠ k) : upd f k v x = f x := by
   simp [upd, h]
 
-def init (p : Prog) : State := ⟨p, fun _ => none, fun _ => 0, p.map (fun _ => [])⟩
+def init (p : Prog) : State :=
+  { rem := p, owner := fun _ => none, readers := fun _ => [], pending := fun _ => none,
+    mem := fun _ => 0, logs := p.map (fun _ => []) }
+
+/-- thread `i` can perform action `a` in state `s` -/
+def canFire (s : State) (i : Nat) : Action → Bool
+  | .lock l => decide (s.owner l = none) && decide (s.readers l = []) &&
+      (decide (s.pending l = none) || decide (s.pending l = some i))
+  | .unlock l => decide (s.owner l = some i)
+  | .rlock l => decide (s.owner l = none) && decide (s.pending l = none)
+  | .runlock l => decide (i ∈ s.readers l)
+  | _ => true
+
+/-- the effect of action `a` of thread `i`, whose remaining program becomes `r` -/
+def fire (wv : WriteFn) (s : State) (i : Nat) (a : Action) (r : Thread) : State :=
+  match a with
+  | .lock l => { s with rem := s.rem.set i r, owner := upd s.owner l (some i), pending := upd s.pending l none }
+  | .unlock l => { s with rem := s.rem.set i r, owner := upd s.owner l none }
+  | .rlock l => { s with rem := s.rem.set i r, readers := upd s.readers l (i :: s.readers l) }
+  | .runlock l => { s with rem := s.rem.set i r, readers := upd s.readers l ((s.readers l).erase i) }
+  | .read x => { s with rem := s.rem.set i r, logs := s.logs.set i (s.logs.getD i [] ++ [s.mem x]) }
+  | .write x => { s with rem := s.rem.set i r, mem := upd s.mem x (wv i x (s.logs.getD i [])) }
+  | .tau => { s with rem := s.rem.set i r }
+
+/-- what a blocked thread does: a writer that is kept out by readers only announces itself -/
+def announce (s : State) (i : Nat) : Action → State
+  | .lock l => if s.owner l = none ∧ s.pending l = none then { s with pending := upd s.pending l (some i) } else s
+  | _ => s
 
 def step (wv : WriteFn) (s : State) (i : Nat) : State :=
   match s.rem[i]? with
-  | none => s
-  | some [] => s
-  | some (a :: r) =>
-    match a with
-    | .lock l => if s.owner l = none then { s with rem := s.rem.set i r, owner := upd s.owner l (some i) } else s
-    | .unlock l => if s.owner l = some i then { s with rem := s.rem.set i r, owner := upd s.owner l none } else s
-    | .read x => { s with rem := s.rem.set i r, logs := s.logs.set i (s.logs.getD i [] ++ [s.mem x]) }
-    | .write x => { s with rem := s.rem.set i r, mem := upd s.mem x (wv i x (s.logs.getD i [])) }
-    | .tau => { s with rem := s.rem.set i r }
+  | some (a :: r) => if canFire s i a then fire wv s i a r else announce s i a
+  | _ => s
 
 def runFrom (wv : WriteFn) (s : State) (sched : List Nat) : State := sched.foldl (step wv) s
 
@@ -70,12 +116,17 @@ def Race (s : State) : Prop :=
     s.rem[i]? = some (ai :: ri) ∧ s.rem[j]? = some (aj :: rj) ∧
     ai.access = some (x, wi) ∧ aj.access = some (x, wj) ∧ (wi = true ∨ wj = true)
 
-/-- Every shared access of the thread happens while it holds `l`; `l` is never re-acquired while
-held and is released before the thread ends. Other locks are ignored. `h` = currently holding. -/
+/-! ## Lock disciplines (static, decidable) -/
+
+/-- Every shared access of the thread happens while it holds `l` as a mutex; `l` is never
+re-acquired while held, never used as a read lock, and is released before the thread ends. Other
+locks are ignored. `h` = currently holding. -/
 def guardedFrom (l : Nat) : Bool → Thread → Bool
   | h, [] => !h
   | h, .lock l' :: r => if l' = l then !h && guardedFrom l true r else guardedFrom l h r
   | h, .unlock l' :: r => if l' = l then h && guardedFrom l false r else guardedFrom l h r
+  | h, .rlock l' :: r => if l' = l then false else guardedFrom l h r
+  | h, .runlock l' :: r => if l' = l then false else guardedFrom l h r
   | h, .read _ :: r => h && guardedFrom l h r
   | h, .write _ :: r => h && guardedFrom l h r
   | h, .tau :: r => guardedFrom l h r
@@ -84,16 +135,53 @@ def AllGuardedBy (l : Nat) (p : Prog) : Prop := ∀ t ∈ p, guardedFrom l false
 
 instance (l : Nat) (p : Prog) : Decidable (AllGuardedBy l p) := by unfold AllGuardedBy; infer_instance
 
-/-- No nested acquisition: a thread holds at most one lock at a time, releases what it holds,
-and only what it holds. `h` = the lock currently held. -/
-def flat : Option Nat → Thread → Bool
+/-- how a thread holds the distinguished lock: not, as a reader, as the writer -/
+inductive Mode where
+  | N | R | W
+  deriving DecidableEq, Repr, Inhabited
+
+/-- The reader/writer discipline with *published* locations `X`: every write happens under the
+write lock of `l`; every read of a location outside `X` under the read or the write lock; a
+location in `X` may be read anywhere (it is the business of `PubOrdered` below that such reads
+come after publication). `l` is not re-acquired in any mode while held (flat in `l`), and is
+released before the thread ends. Other locks are ignored. -/
+def pubGuardedFrom (l : Nat) (X : Nat → Bool) : Mode → Thread → Bool
+  | m, [] => m == .N
+  | m, .lock l' :: r => if l' = l then m == .N && pubGuardedFrom l X .W r else pubGuardedFrom l X m r
+  | m, .unlock l' :: r => if l' = l then m == .W && pubGuardedFrom l X .N r else pubGuardedFrom l X m r
+  | m, .rlock l' :: r => if l' = l then m == .N && pubGuardedFrom l X .R r else pubGuardedFrom l X m r
+  | m, .runlock l' :: r => if l' = l then m == .R && pubGuardedFrom l X .N r else pubGuardedFrom l X m r
+  | m, .read x :: r => (X x || m != .N) && pubGuardedFrom l X m r
+  | m, .write _ :: r => m == .W && pubGuardedFrom l X m r
+  | m, .tau :: r => pubGuardedFrom l X m r
+
+def PubGuardedBy (l : Nat) (X : Nat → Bool) (p : Prog) : Prop := ∀ t ∈ p, pubGuardedFrom l X .N t = true
+
+instance (l : Nat) (X : Nat → Bool) (p : Prog) : Decidable (PubGuardedBy l X p) := by
+  unfold PubGuardedBy; infer_instance
+
+/-- writes under the write lock, reads under at least the read lock, nothing published -/
+def RWGuardedBy (l : Nat) (p : Prog) : Prop := PubGuardedBy l (fun _ => false) p
+
+instance (l : Nat) (p : Prog) : Decidable (RWGuardedBy l p) := by unfold RWGuardedBy; infer_instance
+
+/-- No nested acquisition: a thread holds at most one lock (in one mode) at a time, releases what
+it holds in the mode it holds it, and only what it holds. `h` = the lock currently held and
+whether it is held as a reader. -/
+def flat : Option (Nat × Bool) → Thread → Bool
   | none, [] => true
   | some _, [] => false
-  | none, .lock l :: r => flat (some l) r
+  | none, .lock l :: r => flat (some (l, false)) r
+  | none, .rlock l :: r => flat (some (l, true)) r
   | some _, .lock _ :: _ => false
+  | some _, .rlock _ :: _ => false
   | none, .unlock _ :: _ => false
-  | some l, .unlock l' :: r => l = l' && flat none r
-  | h, _ :: r => flat h r
+  | none, .runlock _ :: _ => false
+  | some (l, rd), .unlock l' :: r => !rd && l = l' && flat none r
+  | some (l, rd), .runlock l' :: r => rd && l = l' && flat none r
+  | h, .read _ :: r => flat h r
+  | h, .write _ :: r => flat h r
+  | h, .tau :: r => flat h r
 
 def NoNesting (p : Prog) : Prop := ∀ t ∈ p, flat none t = true
 
@@ -103,13 +191,11 @@ def AllDone (s : State) : Prop := ∀ (i : Nat) (t : Thread), s.rem[i]? = some t
 
 /-- thread `i` can take a step -/
 def Enabled (s : State) (i : Nat) : Prop :=
-  ∃ a r, s.rem[i]? = some (a :: r) ∧
-    (match a with
-     | .lock l => s.owner l = none
-     | .unlock l => s.owner l = some i
-     | _ => True)
+  ∃ a r, s.rem[i]? = some (a :: r) ∧ canFire s i a = true
 
-/-- Every operation of every thread is exactly one critical section of `l`:
+/-! ## Operations as critical sections -/
+
+/-- Every operation of every thread is exactly one critical section of the mutex `l`:
 `lock l; (read | write | tau)*; unlock l`, nothing outside. `h` = inside a section. -/
 def opsShape (l : Nat) : Bool → Thread → Bool
   | false, [] => true
@@ -117,8 +203,10 @@ def opsShape (l : Nat) : Bool → Thread → Bool
   | false, .lock l' :: r => l' = l && opsShape l true r
   | false, _ :: _ => false
   | true, .unlock l' :: r => l' = l && opsShape l false r
-  | true, .lock _ :: _ => false
-  | true, _ :: r => opsShape l true r
+  | true, .read _ :: r => opsShape l true r
+  | true, .write _ :: r => opsShape l true r
+  | true, .tau :: r => opsShape l true r
+  | true, _ :: _ => false
 
 def OpsProg (l : Nat) (p : Prog) : Prop := ∀ t ∈ p, opsShape l false t = true
 
@@ -132,12 +220,37 @@ def opsShapeT (l : Nat) : Bool → Thread → Bool
   | false, .tau :: r => opsShapeT l false r
   | false, _ :: _ => false
   | true, .unlock l' :: r => l' = l && opsShapeT l false r
-  | true, .lock _ :: _ => false
-  | true, _ :: r => opsShapeT l true r
+  | true, .read _ :: r => opsShapeT l true r
+  | true, .write _ :: r => opsShapeT l true r
+  | true, .tau :: r => opsShapeT l true r
+  | true, _ :: _ => false
 
 def OpsProgT (l : Nat) (p : Prog) : Prop := ∀ t ∈ p, opsShapeT l false t = true
 
 instance (l : Nat) (p : Prog) : Decidable (OpsProgT l p) := by unfold OpsProgT; infer_instance
+
+/-- Reader/writer operations: every operation is a write section `lock l; (read|write|tau)*;
+unlock l` or a read section `rlock l; (read|tau)*; runlock l`; local steps between them. -/
+def rwOpsShape (l : Nat) : Mode → Thread → Bool
+  | .N, [] => true
+  | _, [] => false
+  | .N, .lock l' :: r => l' = l && rwOpsShape l .W r
+  | .N, .rlock l' :: r => l' = l && rwOpsShape l .R r
+  | .N, .tau :: r => rwOpsShape l .N r
+  | .N, _ :: _ => false
+  | .W, .unlock l' :: r => l' = l && rwOpsShape l .N r
+  | .W, .read _ :: r => rwOpsShape l .W r
+  | .W, .write _ :: r => rwOpsShape l .W r
+  | .W, .tau :: r => rwOpsShape l .W r
+  | .W, _ :: _ => false
+  | .R, .runlock l' :: r => l' = l && rwOpsShape l .N r
+  | .R, .read _ :: r => rwOpsShape l .R r
+  | .R, .tau :: r => rwOpsShape l .R r
+  | .R, _ :: _ => false
+
+def RWOpsProg (l : Nat) (p : Prog) : Prop := ∀ t ∈ p, rwOpsShape l .N t = true
+
+instance (l : Nat) (p : Prog) : Decidable (RWOpsProg l p) := by unfold RWOpsProg; infer_instance
 
 /-- the thread without its local steps outside critical sections -/
 def stripT : Bool → Thread → Thread
@@ -165,5 +278,73 @@ def stepOp (wv : WriteFn) (s : State) (i : Nat) : State := stepN wv s i (opLen (
 
 /-- sequential execution: `order` lists whose turn it is to run one whole operation -/
 def runSeq (wv : WriteFn) (p : Prog) (order : List Nat) : State := order.foldl (stepOp wv) (init p)
+
+/-! ## Traces and happens-before -/
+
+/-- an action that fired, and the thread that performed it -/
+structure Ev where
+  tid : Nat
+  act : Action
+  deriving DecidableEq, Repr, Inhabited
+
+/-- a state together with the list of events that led to it (oldest first) -/
+structure TState where
+  st : State
+  tr : List Ev
+
+/-- the event a step of thread `i` adds to the trace: its next action if that can fire -/
+def firedEv (s : State) (i : Nat) : List Ev :=
+  match s.rem[i]? with
+  | some (a :: _) => if canFire s i a then [⟨i, a⟩] else []
+  | _ => []
+
+def tstep (wv : WriteFn) (ts : TState) (i : Nat) : TState := ⟨step wv ts.st i, ts.tr ++ firedEv ts.st i⟩
+
+def trunFrom (wv : WriteFn) (ts : TState) (sched : List Nat) : TState := sched.foldl (tstep wv) ts
+
+def trun (wv : WriteFn) (p : Prog) (sched : List Nat) : TState := trunFrom wv ⟨init p, []⟩ sched
+
+/-- the events of `run wv p sched`, in the order in which they happened -/
+def trace (wv : WriteFn) (p : Prog) (sched : List Nat) : List Ev := (trun wv p sched).tr
+
+/-- synchronisation edges of the Go memory model: the `n`-th `Unlock` is synchronised before the
+`n+1`-st `Lock` returns and before every `RLock` that returns after it; an `RUnlock` is
+synchronised before the next `Lock`. Two read sections are not ordered. -/
+def swEdge : Action → Action → Bool
+  | .unlock l, .lock l' => l == l'
+  | .unlock l, .rlock l' => l == l'
+  | .runlock l, .lock l' => l == l'
+  | _, _ => false
+
+/-- happens-before on the positions of a trace: program order, synchronisation, transitivity -/
+inductive HB (tr : List Ev) : Nat → Nat → Prop
+  | po {a b : Nat} {ea eb : Ev} : a < b → tr[a]? = some ea → tr[b]? = some eb → ea.tid = eb.tid → HB tr a b
+  | sw {a b : Nat} {ea eb : Ev} : a < b → tr[a]? = some ea → tr[b]? = some eb →
+      swEdge ea.act eb.act = true → HB tr a b
+  | trans {a b c : Nat} : HB tr a b → HB tr b c → HB tr a c
+
+/-- a happens-before data race: two conflicting accesses (same location, different threads, at
+least one a write) of which the earlier does not happen before the later -/
+def RaceHB (tr : List Ev) : Prop :=
+  ∃ (a b : Nat) (ea eb : Ev) (x : Nat) (wa wb : Bool), a < b ∧ tr[a]? = some ea ∧ tr[b]? = some eb ∧
+    ea.tid ≠ eb.tid ∧ ea.act.access = some (x, wa) ∧ eb.act.access = some (x, wb) ∧
+    (wa = true ∨ wb = true) ∧ ¬ HB tr a b
+
+/-- The publication rule, a property of one execution: whenever a location of `X` is written and
+read by different threads, the write comes first and the reader has acquired `l` (in either
+mode) in between — the reader went through the lock to learn about the location after it was
+written, and it is never written again once somebody else reads it. -/
+def PubOrdered (l : Nat) (X : Nat → Bool) (tr : List Ev) : Prop :=
+  ∀ (a b : Nat) (i j x : Nat), tr[a]? = some ⟨i, .write x⟩ → tr[b]? = some ⟨j, .read x⟩ → X x = true → i ≠ j →
+    ∃ k, a < k ∧ k < b ∧ (tr[k]? = some ⟨j, .lock l⟩ ∨ tr[k]? = some ⟨j, .rlock l⟩)
+
+/-- the same as a computable check (for concrete traces) -/
+def pubOrderedB (l : Nat) (X : Nat → Bool) (tr : List Ev) : Bool :=
+  (List.range tr.length).all fun a => (List.range tr.length).all fun b =>
+    match tr[a]?, tr[b]? with
+    | some ⟨i, .write x⟩, some ⟨j, .read y⟩ =>
+      !(x == y && X x && i != j) ||
+        (List.range b).any fun k => decide (a < k) && (tr[k]? == some ⟨j, .lock l⟩ || tr[k]? == some ⟨j, .rlock l⟩)
+    | _, _ => true
 
 end J5V.Conc.Sched
